@@ -5,7 +5,10 @@ package recordchk
 import (
 	"errors"
 	"fmt"
+	"github.com/cockroachdb/pebble/vfs"
+	"io"
 	"sync"
+	"syscall"
 	"testing"
 	"testing/synctest"
 	"time"
@@ -45,22 +48,58 @@ type Plan20 struct {
 	// Partial: bytes of the failing write that reach the file anyway.
 	Partial int    `json:"partial,omitempty"`
 	Steps   []Step `json:"steps"`
+	// Stack: the writer does not get the harness file directly but through the
+	// layers a store puts in between: vfs.OnDiskFull (injected failures are
+	// ENOSPC errors, which that layer reacts to) and vfs.NewSyncingFile.
+	Stack bool `json:"stack,omitempty"`
 }
 
 var errInjected = errors.New("injected I/O error")
 
+// errENOSPC is the injected failure in Stack mode.
+var errENOSPC = fmt.Errorf("injected I/O error: %w", syscall.ENOSPC)
+
+// stackFS hands out the harness file as a vfs.File (every other operation goes
+// to an in-memory file system).
+type stackFS struct {
+	vfs.FS
+	g *gateFile
+}
+
+func (s stackFS) Create(name string, c vfs.DiskWriteCategory) (vfs.File, error) {
+	f, err := s.FS.Create(name, c)
+	if err != nil {
+		return nil, err
+	}
+	return &stackFile{File: f, g: s.g}, nil
+}
+
+type stackFile struct {
+	vfs.File
+	g *gateFile
+}
+
+func (f *stackFile) Write(p []byte) (int, error)    { return f.g.Write(p) }
+func (f *stackFile) Sync() error                    { return f.g.Sync() }
+func (f *stackFile) SyncData() error                { return f.g.Sync() }
+func (f *stackFile) SyncTo(int64) (bool, error)     { return true, f.g.Sync() }
+func (f *stackFile) Preallocate(off, n int64) error { return nil }
+func (f *stackFile) Close() error                   { return f.File.Close() }
+
 // gateFile is the harness-owned file: it owns the I/O schedule.
 type gateFile struct {
-	mu      sync.Mutex
-	data    []byte
-	durable int // len(data) when the last successful Sync returned
-	nWrite  int
-	nSync   int
-	failed  bool
-	gated   bool
-	blocked string // "", "write", "sync": a call is waiting at the gate
-	gate    chan struct{}
-	plan    *Plan20
+	mu                 sync.Mutex
+	data               []byte
+	durable            int // len(data) when the last successful Sync returned
+	nWrite             int
+	nSync              int
+	failed             bool
+	dropped            bool
+	maskedWriteFailure bool
+	gated              bool
+	blocked            string // "", "write", "sync": a call is waiting at the gate
+	gate               chan struct{}
+	plan               *Plan20
 	// statistics for the non-triviality rule
 	syncsDone int
 }
@@ -83,10 +122,16 @@ func (f *gateFile) Write(p []byte) (int, error) {
 	f.blocked = ""
 	f.nWrite++
 	if f.nWrite == f.plan.FailWrite {
-		f.failed = true
+		// In Stack mode vfs.OnDiskFull retries the rest of a write that failed
+		// with ENOSPC once (by design; only syncs are never retried): the writer
+		// sees no failure.
+		f.failed = !f.plan.Stack
+		if f.plan.Stack {
+			f.maskedWriteFailure = true
+		}
 		k := min(f.plan.Partial, len(p))
 		f.data = append(f.data, p[:k]...)
-		return k, errInjected
+		return k, f.injected()
 	}
 	f.data = append(f.data, p...)
 	return len(p), nil
@@ -99,12 +144,25 @@ func (f *gateFile) Sync() error {
 	f.blocked = ""
 	f.nSync++
 	if f.nSync == f.plan.FailSync {
-		f.failed = true
-		return errInjected
+		// A failed fsync may have dropped the dirty pages (and marked them clean):
+		// what was not durable at this moment never becomes durable, whatever a
+		// later fsync reports. The log is read as a prefix, so nothing behind the
+		// hole counts either.
+		f.failed, f.dropped = true, true
+		return f.injected()
 	}
-	f.durable = len(f.data)
+	if !f.dropped {
+		f.durable = len(f.data)
+	}
 	f.syncsDone++
 	return nil
+}
+
+func (f *gateFile) injected() error {
+	if f.plan.Stack {
+		return errENOSPC
+	}
+	return errInjected
 }
 
 func (f *gateFile) Close() error { return nil }
@@ -161,6 +219,7 @@ func gen20(t *rapid.T) Plan20 {
 		Seed:       rapid.Uint64().Draw(t, "seed"),
 		IntervalUS: rapid.SampledFrom([]int{0, 0, 50, 1000}).Draw(t, "interval"),
 		Gated:      rapid.IntRange(0, 5).Draw(t, "gated") > 0,
+		Stack:      rapid.IntRange(0, 2).Draw(t, "stack") == 0,
 	}
 	switch rapid.IntRange(0, 7).Draw(t, "fail") {
 	case 0:
@@ -235,7 +294,17 @@ func run20Plan(p Plan20) (evid.Outcome, error) {
 	f := &gateFile{plan: &p, gated: p.Gated, gate: make(chan struct{})}
 	sem := make(chan struct{}, record.SyncConcurrency-1)
 	iv := time.Duration(p.IntervalUS) * time.Microsecond
-	w := record.NewLogWriter(f, base.DiskFileNum(p.LogNum), record.LogWriterConfig{
+	var dst io.Writer = f
+	if p.Stack {
+		fs := vfs.OnDiskFull(stackFS{FS: vfs.NewMem(), g: f}, func() {})
+		vf, err := fs.Create("000001.log", vfs.WriteCategoryUnspecified)
+		if err != nil {
+			return out, fmt.Errorf("harness: %v", err)
+		}
+		dst = vfs.NewSyncingFile(vf, vfs.SyncingFileOptions{})
+		out.Labels = append(out.Labels, "fs-stack")
+	}
+	w := record.NewLogWriter(dst, base.DiskFileNum(p.LogNum), record.LogWriterConfig{
 		WALMinSyncInterval:  func() time.Duration { return iv },
 		QueueSemChan:        sem,
 		WriteWALSyncOffsets: func() bool { return p.Format == fmtWALSync },
